@@ -119,6 +119,18 @@ package pq
 //@     invariant [parent-below-the-children-of-the-hole] old(cmpOK(pq.comp) && pqHeapExcept(pq, i) && 2 * i > pq.size) && j >= 1 ==>
 //@               forall c Int :: (c == 2 * i || c == 2 * i + 1) && c <= pq.size ==> pqOrd(pq, j, c)
 
+// Construction: every input that delivers a first element gets one slot; after each insertion the queue is a heap again.
+//@ func (*PriorityQueue).init
+//@   props C16
+//@   requires pq.comp != nil && pq.size == 0 && len(iterators) < 4611686018427387904 &&
+//@            (forall a Int :: 0 <= a && a < len(iterators) ==> iterators[a] != nil)
+//@   ensures [C16:a-new-queue-is-a-heap] r0 == nil ==> pqShape(pq) && pqDistinctExcept(pq, 0) && (cmpOK(pq.comp) ==> pqHeapExcept(pq, 0))
+//@   loop 0
+//@     invariant pq.comp != nil && 0 <= pq.size && pq.size <= iter && len(pq.heap) == pq.size + 1
+//@     invariant forall c Int :: 1 <= c && c <= pq.size ==> pq.heap[c] != nil && pq.heap[c].iterator != nil
+//@     invariant pqDistinctExcept(pq, 0) && (cmpOK(pq.comp) ==> pqHeapExcept(pq, 0))
+//@   safety on
+
 //@ func (*PriorityQueue).Next
 //@   props C16 C11 C08
 //@   replay pq_merge
@@ -137,3 +149,14 @@ package pq
 //@   ensures [C16:heap-order-kept] old(cmpOK(pq.comp) && pqHeapExcept(pq, 0) && pqDistinctExcept(pq, 0) && pq.size < 4611686018427387904) && err == nil ==>
 //@           pqHeapExcept(pq, 0) && pqDistinctExcept(pq, 0)
 //@   safety on
+
+// The constructor: the interface-level facts (a fresh queue that has not been asked yet) stay assumed, the concrete one is
+// verified: what it returns is a heap.
+//@ func NewPriorityQueue
+//@   assumed
+//@   ensures r1 == nil ==> r0 != nil && qPos(r0) == 0
+//@   fresh r0
+//@   modifies inPos(*), itPos(*)
+//@   props C16
+//@   requires comp != nil && len(iterators) < 4611686018427387904 && (forall a Int :: 0 <= a && a < len(iterators) ==> iterators[a] != nil)
+//@   exit [C16:a-new-queue-is-a-heap] r1 == nil ==> pqShape(q) && pqDistinctExcept(q, 0) && (cmpOK(q.comp) ==> pqHeapExcept(q, 0))
